@@ -538,10 +538,20 @@ class Summary:
 
 
 # --------------------------------------------------------------------------------------------------
+class Budget(Exception):
+    """the fixpoint of one function did not settle within the time allowed: the obligation is left undecided"""
+
+
+BUDGET_S = 90.0
+
+
 def analyze(cx, fn, args, facts, want_edges=False, init_vals=None):
     """args: list of abstract values for parameters _1.. ; facts: initial constraints"""
+    import time as _time
     init = State({i + 1: v for i, v in enumerate(args) if v != UNKNOWN}, facts)
     top_level = cx.depth == 0
+    if top_level:
+        cx.deadline = _time.time() + BUDGET_S
     if init_vals:
         init.vals.update(init_vals)
     blocks = fn.blocks
@@ -582,6 +592,8 @@ def analyze(cx, fn, args, facts, want_edges=False, init_vals=None):
         changed = False
         rets, reports = [], []
         for bb in rpo:
+            if getattr(cx, "deadline", None) and _time.time() > cx.deadline:
+                raise Budget("abstract interpretation of %s did not settle within %ds" % (fn.name, int(BUDGET_S)))
             inc = [s_ for (p_, t_), lst in sorted(edges.items(), key=lambda kv: kv[0]) if t_ == bb for s_ in lst]
             if bb == 0:
                 inc = [init] + inc
@@ -1087,8 +1099,10 @@ def ref_bases(cx, fn):
         return m
     m = {}
     changed = True
-    while changed:
+    rounds = 0
+    while changed and rounds < 64:      # (re-borrow cycles through a loop-carried slice would otherwise never settle)
         changed = False
+        rounds += 1
         for b in fn.blocks:
             if b["cleanup"]:
                 continue
@@ -1107,7 +1121,7 @@ def ref_bases(cx, fn):
                     pl = place_of(rv["op"])
                     if pl and len(pl) == 1 and pl[0] in m:
                         tgt = m[pl[0]]
-                if tgt is not None and m.get(s["lhs"][0]) != tgt:
+                if tgt is not None and tgt != s["lhs"][0] and m.get(s["lhs"][0]) != tgt and (s["lhs"][0] not in m or rounds < 8):
                     m[s["lhs"][0]] = tgt
                     changed = True
     cx.summaries[("refbase", fn.name)] = m
